@@ -869,6 +869,12 @@ class GCXS(SparseArray, NDArrayOperatorsMixin):
     def isnan(self):
         return self.tocoo().isnan().asformat("gcxs", compressed_axes=self.compressed_axes)
 
+    def squeeze(self, axis=None):
+        return self.tocoo().squeeze(axis=axis).asformat("gcxs")
+
+    def broadcast_to(self, shape):
+        return self.tocoo().broadcast_to(shape).asformat("gcxs")
+
 
 class _Compressed2d(GCXS):
     class_compressed_axes: tuple[int]
